@@ -304,6 +304,55 @@ theorem edges_in_kernel (isa : Isa) (fd : Bool) (par : Params) (k : List Ins) (h
   have h := emissions_shape isa fd par k hk e ((create_edges_subset isa fd par k).1 e he)
   exact ⟨h.2.1, h.2.2.1⟩
 
+/-- no instruction of the kernel has a memory destination (no store): then there are no store→load
+    emissions and the register/flag emissions are all dependency edges -/
+def NoMemDst (k : List Ins) : Prop :=
+  k.all (fun p => (p.dst ++ p.srcDst).all fun d => match d with | .mem _ => false | _ => true) = true
+
+instance (k : List Ins) : Decidable (NoMemDst k) := by unfold NoMemDst; infer_instance
+
+theorem memEmissions_nil (isa : Isa) (par : Params) (k : List Ins) (h : NoMemDst k) :
+    memEmissions isa par k = [] := by
+  induction k with
+  | nil => rfl
+  | cons p rest ih =>
+    unfold NoMemDst at h ih
+    simp only [List.all_cons, Bool.and_eq_true] at h
+    simp only [memEmissions, ih h.2, List.append_nil, List.map_eq_nil_iff, findDependingMem,
+      List.flatMap_eq_nil_iff]
+    intro d hd
+    have := List.all_eq_true.mp h.1 d hd
+    cases d <;> simp_all [memPart]
+
+theorem loadEmissions_src (k : List Ins) (e : Edge) (he : e ∈ loadEmissions k) : e.src.load = true := by
+  induction k with
+  | nil => simp [loadEmissions] at he
+  | cons p rest ih =>
+    simp only [loadEmissions, List.mem_append] at he
+    rcases he with he | he
+    · unfold loadEdge at he
+      split at he
+      · simp only [List.mem_singleton] at he; subst he; rfl
+      · simp at he
+    · exact ih he
+
+/-- **C03 on the final graph** for kernels without stores: `create` has an edge between the
+    instruction nodes of positions `i`, `j` iff `(i, j)` is a read-after-write pair. -/
+theorem create_iff_raw (isa : Isa) (fd : Bool) (par : Params) (k : List Ins) (hk : WFKernel k)
+    (hm : NoMemDst k) (i j : Nat) (p c : Ins) (hi : k[i]? = some p) (hj : k[j]? = some c) :
+    (∃ e ∈ create isa fd par k, e.src = ⟨p.line, false⟩ ∧ e.dst = ⟨c.line, false⟩) ↔
+      rawAt isa fd k i j = true := by
+  constructor
+  · rintro ⟨e, he, hs, hd⟩
+    refine (edges_iff_raw isa fd par k hk i j p c hi hj).mp ⟨e, ?_, hs, hd⟩
+    have hem := (create_edges_subset isa fd par k).1 e he
+    rcases (mem_emissions isa fd par k e).mp hem with h | h | h
+    · have := loadEmissions_src k e h
+      rw [hs] at this; cases this
+    · exact h
+    · rw [memEmissions_nil isa par k hm] at h; cases h
+  · exact raw_edge_in_create isa fd par k hk i j p c hi hj
+
 /-- a concrete kernel for the non-vacuity checks: `eax` written at line 3 kills the dependency of
     line 4 on line 1 (aliasing widths) -/
 def demoKernel : List Ins :=
@@ -316,6 +365,7 @@ def demoKernel : List Ins :=
 -- non-vacuity: the hypothesis `WFKernel` holds of the demo kernel; both sides of `edges_iff_raw` are
 -- inhabited (positions 0 → 1 are RAW, positions 0 → 3 are not: killed at position 2)
 example : WFKernel demoKernel := by decide +kernel
+example : NoMemDst demoKernel := by decide +kernel
 example : rawAt .x86 false demoKernel 0 1 = true ∧ rawAt .x86 false demoKernel 0 3 = false ∧
     rawAt .x86 false demoKernel 2 3 = true := by decide +kernel
 example : (regEmissions .x86 false {} demoKernel).map (fun e => (e.src.line, e.dst.line)) = [(1, 2), (3, 4)] := by
